@@ -8,6 +8,7 @@ pub mod c07;
 pub mod c08;
 pub mod c10;
 pub mod c11;
+pub mod c12;
 pub mod c13;
 
 use crate::harness::Prop;
@@ -23,6 +24,7 @@ pub fn by_id(id: &str) -> Option<&'static dyn Prop> {
         "C08" => Some(&c08::C08),
         "C10" => Some(&c10::C10),
         "C11" => Some(&c11::C11),
+        "C12" => Some(&c12::C12),
         "C13" => Some(&c13::C13),
         _ => None,
     }
